@@ -68,4 +68,106 @@ theorem collision_iff (t : Target) (hs : Bool) (value gasLimit : Nat) (sd : Bool
     simp only [hc, if_false]
     by_cases ho : t.balance + value ≥ W <;> simp [ho, hn]
 
+/-! ## the decision does not depend on how the target became warm -/
+
+/-- the `has_storage` answer of a database stack as a Bool -/
+def hsOf (db : Db) (a : Addr) : Bool :=
+  match (db.query (.hasStorage a)).2 with
+  | .flag f => f
+  | _ => false
+
+theorem makeCreateFrame_eq (db : Db) (a : Addr) (t : Target) (value gasLimit : Nat) (sd : Bool) :
+    makeCreateFrame db a t value gasLimit sd = createAccountCheckpoint t (hsOf db a) value gasLimit sd := by
+  obtain ⟨f, hf⟩ := hasStorage_reply db a
+  simp [makeCreateFrame, hsOf, hf]
+
+/-- no query (and nothing it caches, at any layer) changes what the stack answers to `has_storage` -/
+theorem hs_stable (d : Db) : ∀ (q : Query) (a : Addr),
+    ((d.query q).1.query (.hasStorage a)).2 = (d.query (.hasStorage a)).2 := by
+  induction d with
+  | base b => intro q a; rfl
+  | empty k => intro q a; rfl
+  | cache i c _ => intro q a; rfl
+  | state i s _ => intro q a; rfl
+  | wrapRef i _ => intro q a; rfl
+  | fwd i ih => intro q a; exact ih q a
+  | components i _ =>
+    intro q a
+    cases q <;> rfl
+
+theorem hsOf_query (d : Db) (q : Query) (a : Addr) : hsOf (d.query q).1 a = hsOf d a := by
+  unfold hsOf; rw [hs_stable]
+
+theorem hsOf_preloadKeys (a : Addr) (keys : List Slot) : ∀ (db : Db) (acc : List (Slot × Nat)),
+    hsOf (preloadKeys db a keys acc).1 a = hsOf db a := by
+  induction keys with
+  | nil => intro db acc; rfl
+  | cons k ks ih =>
+    intro db acc
+    unfold preloadKeys
+    cases h : lookupSlot acc k with
+    | some v => simp only [h]; exact ih db acc
+    | none => simp only [h]; rw [ih]; exact hsOf_query db _ a
+
+/-- what the journal entry records of the account info is `db.basic`'s answer, however it got there -/
+def infoTarget (db : Db) (a : Addr) : Target := targetOfInfo (infoOfReply (db.query (.basic a)).2)
+
+/-- two targets creation cannot tell apart: same code hash, nonce, balance (flags may differ) -/
+def SameInfo (t u : Target) : Prop := t.codeHash = u.codeHash ∧ t.nonce = u.nonce ∧ t.balance = u.balance
+
+theorem loadedTarget_sameInfo (db : Db) (a : Addr) (w : Warmth) : SameInfo (loadedTarget db a w) (infoTarget db a) := by
+  cases w <;> exact ⟨rfl, rfl, rfl⟩
+
+theorem hsOf_journalEntry (db : Db) (a : Addr) (w : Warmth) :
+    hsOf (loadAccount (journalEntry db a w).1 a (journalEntry db a w).2 false).1 a = hsOf db a := by
+  cases w with
+  | coldFirstTouch => exact hsOf_query db _ a
+  | accessList keys =>
+    show hsOf (preloadKeys (db.query (.basic a)).1 a keys []).1 a = hsOf db a
+    rw [hsOf_preloadKeys]; exact hsOf_query db _ a
+  | opcodeLoad => exact hsOf_query db _ a
+  | called => exact hsOf_query db _ a
+  | retried =>
+    show hsOf ((db.query (.basic a)).1.query (.hasStorage a)).1 a = hsOf db a
+    rw [hsOf_query]; exact hsOf_query db _ a
+  | revertedCold => exact hsOf_query db _ a
+
+theorem cac_congr (t u : Target) (h : SameInfo t u) (hs : Bool) (value gasLimit : Nat) (sd : Bool) :
+    (createAccountCheckpoint t hs value gasLimit sd).result = (createAccountCheckpoint u hs value gasLimit sd).result ∧
+    (createAccountCheckpoint t hs value gasLimit sd).gasLost = (createAccountCheckpoint u hs value gasLimit sd).gasLost := by
+  obtain ⟨h1, h2, h3⟩ := h
+  have hc : collides t hs = collides u hs := by unfold collides; rw [h1, h2]
+  unfold createAccountCheckpoint
+  rw [hc, h3]
+  by_cases hcu : collides u hs = true
+  · simp [hcu]
+  · by_cases ho : u.balance + value ≥ W <;> simp [hcu, ho]
+
+theorem cac_collision_target (t : Target) (hs : Bool) (value gasLimit : Nat) (sd : Bool)
+    (h : (createAccountCheckpoint t hs value gasLimit sd).result = .collision) :
+    (createAccountCheckpoint t hs value gasLimit sd).target = t := by
+  unfold createAccountCheckpoint at *
+  by_cases hc : collides t hs = true
+  · simp [hc]
+  · by_cases ho : t.balance + value ≥ W <;> simp [hc, ho] at h ⊢
+
+/-- on any journal entry the outcome is `create_account_checkpoint` of the entry's account and the
+database's `has_storage`: `cold`, the loaded `slots` and `warm_preloaded_addresses` are never read -/
+theorem makeCreateFrameJ_some (db : Db) (a : Addr) (j : JAccount) (preloaded : Bool) (value gasLimit : Nat) (sd : Bool) :
+    makeCreateFrameJ db a (some j) preloaded value gasLimit sd =
+      createAccountCheckpoint j.target (hsOf db a) value gasLimit sd := by
+  simp [makeCreateFrameJ, loadAccount, makeCreateFrame_eq]
+
+theorem makeCreateFrameJ_none (db : Db) (a : Addr) (preloaded : Bool) (value gasLimit : Nat) (sd : Bool) :
+    makeCreateFrameJ db a none preloaded value gasLimit sd =
+      createAccountCheckpoint (infoTarget db a) (hsOf db a) value gasLimit sd := by
+  simp [makeCreateFrameJ, loadAccount, makeCreateFrame_eq, hsOf_query, infoTarget]
+
+theorem makeCreateFrameW_eq (db : Db) (a : Addr) (w : Warmth) (value gasLimit : Nat) (sd : Bool) :
+    makeCreateFrameW db a w value gasLimit sd =
+      createAccountCheckpoint (loadedTarget db a w) (hsOf db a) value gasLimit sd := by
+  unfold makeCreateFrameW makeCreateFrameJ loadedTarget
+  simp only [makeCreateFrame_eq]
+  rw [hsOf_journalEntry]
+
 end Revm.Proofs.Collision
